@@ -1,10 +1,11 @@
 // C++ side of the cmpct family (C38): real CBlockHeaderAndShortTxIDs / PartiallyDownloadedBlock with a real mempool.
 //
-//   cmpct <segwit 0|1> <nonce> <hdrroot> <cb> <commit> <stack> <prefilled idx,..|-> <mempool idx,..|-> <extra idx,..|-> <nother> <missing spec> <other tx> <tx>+
+//   cmpct <segwit 0|1> <nonce> <hdrroot> <cb> <commit> <stack> <prefilled idx,..|-> <mempool idx,..|-> <extra idx,..|-> <nother> <missing spec> <strip idx,..|-> <other tx> <tx>+
 //        (<cb> <commit> <stack> describe the coinbase to the model, as in merkle_drv.cpp; ignored here)
 //        the block is <tx>+ with the given header merkle root; the compact block prefills the listed positions
 //        and carries short ids for the rest; the mempool holds the listed block transactions plus <nother>
 //        unrelated ones; extra_txn holds the listed block transactions;
+//        strip: positions whose delivered version (prefilled or in the blocktxn response) has its witness removed
 //        missing spec: exact | short | long | swap | wrong | none   (the blocktxn response, relative to what is missing)
 //        -> <InitData status> <IsTxAvailable bits> <FillBlock status> <reconstructed wtxids == the block's: 1|0|->
 //   cmpctraw <header null 0|1> <nshort> <index:tx|index:null,...|->
@@ -110,7 +111,7 @@ int main()
         auto opts = MemPoolOptionsForTest(setup.m_node);
         CTxMemPool pool{opts, error};
         if (!error.empty()) throw std::runtime_error("mempool");
-        if (w[0] == "cmpct" && w.size() >= 14) {
+        if (w[0] == "cmpct" && w.size() >= 15) {
             bool segwit = w[1] == "1";
             uint64_t nonce = vd::ull(w[2]);
             CBlock block;
@@ -119,10 +120,19 @@ int main()
             block.nTime = 1700000000;
             block.nBits = 0x207fffff;
             block.hashMerkleRoot = u256(w[3]);
-            for (size_t i = 13; i < w.size(); ++i) block.vtx.push_back(parse_tx(w[i]));
+            for (size_t i = 14; i < w.size(); ++i) block.vtx.push_back(parse_tx(w[i]));
             const size_t n = block.vtx.size();
             std::vector<bool> pre(n, false);
             for (size_t i : idxlist(w[7])) pre.at(i) = true;
+            // what the (possibly malicious) peer delivers for position i: the transaction, or its witness-stripped version
+            std::vector<bool> strip(n, false);
+            for (size_t i : idxlist(w[12])) strip.at(i) = true;
+            auto delivered = [&](size_t i) -> CTransactionRef {
+                if (!strip[i]) return block.vtx[i];
+                CMutableTransaction m(*block.vtx[i]);
+                for (auto& in : m.vin) in.scriptWitness.SetNull();
+                return MakeTransactionRef(std::move(m));
+            };
             // the announcement (short ids from the public constructor's selector for this header and nonce)
             CBlock keyblock;
             static_cast<CBlockHeader&>(keyblock) = static_cast<const CBlockHeader&>(block);
@@ -134,7 +144,7 @@ int main()
             bool first = true;
             for (size_t i = 0; i < n; ++i) {
                 if (pre[i]) {
-                    prefilled.emplace_back(first ? i : i - last - 1, block.vtx[i]);
+                    prefilled.emplace_back(first ? i : i - last - 1, delivered(i));
                     last = i; first = false;
                 } else shortids.push_back(keyer.GetShortID(block.vtx[i]->GetWitnessHash()));
             }
@@ -155,10 +165,10 @@ int main()
             for (size_t i = 0; i < n; ++i) {
                 bool a = pdb.IsTxAvailable(i);
                 avail += a ? "1" : "0";
-                if (!a) missing.push_back(block.vtx[i]);
+                if (!a) missing.push_back(delivered(i));
             }
             const std::string& spec = w[11];
-            CTransactionRef other = parse_tx(w[12]);
+            CTransactionRef other = parse_tx(w[13]);
             if (spec == "short") { if (!missing.empty()) missing.pop_back(); }
             else if (spec == "long") missing.push_back(other);
             else if (spec == "swap") { if (missing.size() >= 2) std::swap(missing[0], missing[1]); }
